@@ -761,3 +761,23 @@ Proof. vm_compute. reflexivity. Qed.
 
 Example ex_positions : pos_in_range 1 2 exdoc = [[0]; [0; 0]; [0; 1]; [1]]%nat.
 Proof. reflexivity. Qed.
+
+(* the depth hypothesis of any_last_bind / nodes_unbounded is satisfiable (any real document) *)
+Example ex_depth_hyp : Z.of_nat (json_depth exdoc) < max_uint32.
+Proof. reflexivity. Qed.
+
+(* the two headline corollaries, on the semantics itself *)
+Corollary any_exact_sem L C Q (n : nat) cur l ig u v :
+  Z.of_nat n < max_uint32 ->
+  sem_step L C Q (SAny (Z.of_nat n) (Z.of_nat n)) (fun _ _ x => tone x) cur l ig u v = (kfold n v, None).
+Proof.
+  intros Hn. rewrite any_is_nodes by lia. now rewrite any_exact_kfold.
+Qed.
+
+Corollary any_plain_sem L C Q cur l ig u v :
+  Z.of_nat (json_depth v) <= max_uint32 ->
+  sem_step L C Q (SAny 0 max_uint32) (fun _ _ x => tone x) cur l ig u v = (map snd (all_nodes 0 v), None).
+Proof.
+  intros Hd. rewrite any_is_nodes; [now rewrite nodes_all | lia | unfold max_uint32; lia |].
+  intros [H _]. discriminate H.
+Qed.
